@@ -298,8 +298,10 @@ def rule_bounds(prog: Program, col: Collector) -> None:
     ob.rule("B3", {"C01", "C02", "C08"}, "the first lower-bound loop iterates the unknown coalitions by increasing size", 1)
     ob.rule("B4", {"C01", "C08", "C04"}, "in the first lower-bound phase every bound read is at proper non-empty sub-coalitions (final entries)", 1)
     ob.rule("B5", {"C01", "C04", "C08"}, "every upper-bound loop starts after the last lower-bound loop has ended", 1)
-    ob.rule("B6s", {"C01", "C04"}, "lower value = reduction over LB(P) + LB(c\\P): lower-bound columns, complement of the same P", 1)
-    ob.rule("B7s", {"C01", "C04"}, "upper value = reduction over KV(T) - LB(T\\c): T known strict supersets, lower-bound subtrahend, subtraction", 1)
+    ob.rule("B6s", {"C01", "C02", "C04"}, "lower value = reduction over LB(P) + LB(c\\P): lower-bound columns, complement of the same P, no extra `initial` candidate", 1)
+    ob.rule("B7s", {"C01", "C02", "C04"}, "upper value = reduction over KV(T) - LB(T\\c): T known strict supersets, lower-bound subtrahend, subtraction, no extra `initial` candidate", 1)
+    ob.rule("B6s", {"C03", "C07", "C08"}, "lower value is the reduction over the splits only (no extra `initial` candidate)", 0)
+    ob.rule("B7s", {"C03", "C07", "C08"}, "upper value is the reduction over the known supersets only (no extra `initial` candidate)", 0)
     ob.rule("B6", {"C02"}, "lower = MAX over exactly all proper non-empty sub-coalitions (no knowledge filter, no slice)", 2)
     ob.rule("B7", {"C02"}, "upper = MIN over exactly all known proper supersets", 2)
     ob.rule("B13", {"C07"}, "knowledge enters only as the UNKNOWN target filter and positively (known-filter) inside MIN reductions of upper bounds; MAX for lower, MIN for upper", 4)
@@ -307,7 +309,7 @@ def rule_bounds(prog: Program, col: Collector) -> None:
     for comp in scope:
         _check_computer(ob, comp, is_sam=comp in sam)
 
-    if pid in ("C01", "C03", "C04", "C08") and struct is not None:
+    if pid in ("C01", "C02", "C03", "C04", "C08") and struct is not None:
         _check_table(ob, prog, struct, analysed)
     if pid == "C03":
         _check_siblings(ob, prog, sa, struct, comps)
@@ -454,6 +456,12 @@ def _check_lb(ob: _Ob, comp: Computer, w: Write, is_sam: bool) -> None:
         if undec:
             ob.und("B4", {"C01", "C04", "C08"}, where, fn, "branch condition on something other than the repetition counter")
             continue
+        if v[0] == "INIT":
+            ob.check("B6s", {"C01", "C02", "C03", "C04", "C07", "C08"}, False, where, fn,
+                     f"the lower bound is the reduction over the splits only (found an extra candidate initial={v[3]})", "lb-reduction-initial",
+                     "an `initial` value is an extra candidate that no split justifies: max(0, ...) is wrong for negative games, and the row's own "
+                     "previous bound makes the result depend on history")
+            continue
         if v[0] not in ("MAX", "MIN"):
             ob.und("B6s", {"C01", "C02", "C04", "C07"}, where, fn, f"LB value is not a reduction: {show_num(v)}")
             continue
@@ -490,20 +498,20 @@ def _check_lb(ob: _Ob, comp: Computer, w: Write, is_sam: bool) -> None:
             ob.und("B6s", {"C01", "C02", "C04", "C07"}, where, fn, f"split set not understood: {show_coll(P)}")
             continue
         # B6s soundness
-        ob.check("B6s", {"C01", "C04"}, dcol in ("LB", "KV") and ccol in ("LB", "KV"), where, fn,
+        ob.check("B6s", {"C01", "C02", "C04"}, dcol in ("LB", "KV") and ccol in ("LB", "KV"), where, fn,
                  f"both summands read lower bounds [{tag}] ({dcol}, {ccol})", f"lb-column:{tag}",
                  "an upper bound (or NaN-masked known value) in a summand is not a lower bound of v: the sum can exceed v(S)")
         same = CP.base == P
-        ob.check("B6s", {"C01", "C04"}, same, where, fn, f"the complement is taken of the same split set [{tag}]",
+        ob.check("B6s", {"C01", "C02", "C04"}, same, where, fn, f"the complement is taken of the same split set [{tag}]",
                  f"lb-complement-same:{tag}", "P and c\\P' with P' != P are not a partition of c")
         seq = comp.interp.same_sequence(w.value_term, w.c)
         if seq is not None:
             ob.check("B6s", {"C01", "C03", "C04"}, seq, where, fn, f"the complement list is the elementwise complement of the split list itself (same order) [{tag}]",
                      f"lb-complement-pairing:{tag}", "parts are added elementwise: P[i] must be paired with c\\P[i], not with the complement of another part")
         okc, why = compl_valid(CP)
-        ob.check("B6s", {"C01", "C04"}, okc, where, fn, f"c\\P is a set difference within c [{tag}] {why}", f"lb-complement-valid:{tag}",
+        ob.check("B6s", {"C01", "C02", "C04"}, okc, where, fn, f"c\\P is a set difference within c [{tag}] {why}", f"lb-complement-valid:{tag}",
                  "xor/difference with a non-subset is not the complementary part")
-        ob.check("B6s", {"C01", "C04"}, P.classes <= {PSUB, EMPTY, SELF}, where, fn,
+        ob.check("B6s", {"C01", "C02", "C04"}, P.classes <= {PSUB, EMPTY, SELF}, where, fn,
                  f"split set lies inside c [{tag}]: {P.show()}", f"lb-split-inside:{tag}",
                  "a part that is not a sub-coalition does not split c")
         # B4 fresh reads (first phase / SA)
@@ -519,7 +527,7 @@ def _check_lb(ob: _Ob, comp: Computer, w: Write, is_sam: bool) -> None:
         if at0:
             ob.check("B6", {"C02"}, red == "MAX", where, fn, f"lower bound is the MAX over splits (found {red})", "lb-max",
                      "MIN over splits is sound but not the best partition: looser interval")
-            ob.check("B6", {"C02"}, P.classes >= {PSUB} and P.known is None and not P.restricted, where, fn,
+            ob.check("B6", {"C02"}, P.classes == frozenset({PSUB}) and P.known is None and not P.restricted, where, fn,
                      f"split set is exactly all proper non-empty sub-coalitions: {P.show()}", "lb-complete",
                      "dropping candidates (knowledge filter, slice, size predicate) gives a sound but looser lower bound")
             if P.restricted and P.unrecognised:
@@ -553,6 +561,12 @@ def _check_ub(ob: _Ob, comp: Computer, w: Write, is_sam: bool) -> None:
                      "without the sub-coalition term an upper bound can exceed the value of a known sub-coalition")
         seen_super = seen_sub = False
         for part in parts:
+            if part[0] == "INIT":
+                ob.check("B7s", {"C01", "C02", "C03", "C04", "C07", "C08"}, False, where, fn,
+                         f"the upper bound is the reduction over the known supersets only (found an extra candidate initial={part[3]})", "ub-reduction-initial",
+                         "an `initial` value is an extra candidate that no superset justifies")
+                seen_super = seen_sub = True
+                continue
             if part[0] not in ("MIN", "MAX"):
                 ob.und("B7s", {"C01", "C02", "C04", "C07"}, where, fn, f"UB operand is not a reduction: {show_num(part)}")
                 continue
@@ -565,28 +579,28 @@ def _check_ub(ob: _Ob, comp: Computer, w: Write, is_sam: bool) -> None:
                     ob.und("B7s", {"C01", "C02", "C04", "C07"}, where, fn, f"UB difference not of the form V(T) - LB(T\\c): {show_num(body)}")
                     continue
                 T = minu[1]
-                ob.check("B7s", {"C01", "C04"}, T.known is True, where, fn,
+                ob.check("B7s", {"C01", "C02", "C04"}, T.known is True, where, fn,
                          f"minuend is the value of KNOWN supersets: {T.show()}", "ub-known-filter",
                          "the lower bound of an unknown superset used as its value yields a number below admissible v(S)")
-                ob.check("B7s", {"C01", "C04"}, T.classes <= {PSUPER, SELF}, where, fn,
+                ob.check("B7s", {"C01", "C02", "C04"}, T.classes <= {PSUPER, SELF}, where, fn,
                          f"T ranges over supersets of c: {T.show()}", "ub-supersets",
                          "v(T) - LB(T\\c) bounds v(c) only for T containing c")
-                ob.check("B7s", {"C01", "C04"}, minu[0] in ("KV",) or (minu[0] in ("LB", "UB", "VAL") and T.known is True), where, fn,
+                ob.check("B7s", {"C01", "C02", "C04"}, minu[0] in ("KV",) or (minu[0] in ("LB", "UB", "VAL") and T.known is True), where, fn,
                          "minuend column is a value column at known rows", "ub-minuend-col", "")
-                ob.check("B7s", {"C01", "C04"}, subt[0] in ("LB", "KV"), where, fn,
+                ob.check("B7s", {"C01", "C02", "C04"}, subt[0] in ("LB", "KV"), where, fn,
                          f"subtrahend reads LOWER bounds of T\\c (found {subt[0]})", "ub-subtrahend-col",
                          "subtracting an upper bound of the complement gives a number below admissible v(S)")
-                ob.check("B7s", {"C01", "C04"}, subt[1].base == T, where, fn, "the complement is taken of the same T", "ub-complement-same",
+                ob.check("B7s", {"C01", "C02", "C04"}, subt[1].base == T, where, fn, "the complement is taken of the same T", "ub-complement-same",
                          "v(T) - LB(T'\\c) with T' != T is not a superadditivity inequality")
                 okc, why = compl_valid(subt[1])
-                ob.check("B7s", {"C01", "C04"}, okc, where, fn, f"T\\c is a set difference {why}", "ub-complement-valid", "")
+                ob.check("B7s", {"C01", "C02", "C04"}, okc, where, fn, f"T\\c is a set difference {why}", "ub-complement-valid", "")
                 seq = comp.interp.same_sequence(w.value_term, w.c)
                 if seq is not None:
                     ob.check("B7s", {"C01", "C03", "C04"}, seq, where, fn, "the complement list is the elementwise remainder of the superset list itself (same order)",
                              "ub-complement-pairing", "v(T[i]) must be paired with LB(T[i]\\c)")
                 ob.check("B7", {"C02"}, red == "MIN", where, fn, f"upper bound is the MIN over known supersets (found {red})", "ub-min",
                          "MAX over candidates is sound but looser")
-                ob.check("B7", {"C02"}, T.classes >= {PSUPER} and T.known is True and not T.restricted, where, fn,
+                ob.check("B7", {"C02"}, T.classes - {SELF} == frozenset({PSUPER}) and T.known is True and not T.restricted, where, fn,
                          f"T is exactly all known proper supersets (grand coalition included): {T.show()}", "ub-complete",
                          "ignoring a known superset gives a sound but looser upper bound")
                 if T.restricted and T.unrecognised:
@@ -626,22 +640,22 @@ def _check_ub(ob: _Ob, comp: Computer, w: Write, is_sam: bool) -> None:
 # --------------------------------------------------------------------------------------
 
 def _check_table(ob: _Ob, prog: Program, struct: StructInfo, analysed: dict[str, Computer]) -> None:
-    if not ob.rule("B10", {"C01", "C03", "C04", "C08"}, "relation codes compared by readers are codes the table writer assigns, with the class sets the recurrences need", 3):
+    if not ob.rule("B10", {"C01", "C02", "C03", "C04", "C08"}, "relation codes compared by readers are codes the table writer assigns, with the class sets the recurrences need", 3):
         return
     ref = struct.ref
     cc = struct.code_classes
     want = {PSUB: "proper non-empty sub-coalitions", PSUPER: "proper supersets", SELF: "the coalition itself"}
     for cls, text in want.items():
         codes = [k for k, v in cc.items() if v == frozenset({cls})]
-        ob.check("B10", {"C01", "C03", "C04", "C08"}, len(codes) == 1, ref.where(), ref.short,
+        ob.check("B10", {"C01", "C02", "C03", "C04", "C08"}, len(codes) == 1, ref.where(), ref.short,
                  f"exactly one relation code denotes exactly {text} (codes: { {k: sorted(v) for k, v in cc.items()} })",
                  f"table-class:{cls}",
                  "the order of the subscript stores decides which code a row's own entry / the empty coalition ends up with; "
                  "a code that mixes classes makes every reader select wrong candidates")
     for pos_role in ("ALLIDS", "TABLE"):
-        ob.check("B10", {"C01", "C03", "C04", "C08"}, pos_role in struct.roles.values(), ref.where(), ref.short,
+        ob.check("B10", {"C01", "C02", "C03", "C04", "C08"}, pos_role in struct.roles.values(), ref.where(), ref.short,
                  f"returned tuple contains the {pos_role} component", f"table-role:{pos_role}", "")
-    ob.check("B10", {"C01", "C03", "C04", "C08"}, "SORTED_UP" in struct.roles.values(), ref.where(), ref.short,
+    ob.check("B10", {"C01", "C02", "C03", "C04", "C08"}, "SORTED_UP" in struct.roles.values(), ref.where(), ref.short,
              "returned tuple contains the ids sorted by increasing size (argsort of the per-id sizes)", "table-role:SORTED_UP",
              "the cached computers process unknown coalitions in this order")
     seen = set()
@@ -650,7 +664,7 @@ def _check_table(ob: _Ob, prog: Program, struct: StructInfo, analysed: dict[str,
             continue
         seen.add(comp.ref.qual)
         nw = getattr(comp.interp, "never_written", [])
-        ob.check("B10", {"C01", "C03", "C04", "C08"}, not nw, comp.ref.where(), comp.ref.short,
+        ob.check("B10", {"C01", "C02", "C03", "C04", "C08"}, not nw, comp.ref.where(), comp.ref.short,
                  f"every relation code compared is one the writer assigns (unknown: {sorted(set(nw))})", "table-reader-code",
                  "comparing with a code that is never written selects nothing: the reduction runs over an empty set")
 
